@@ -25,11 +25,13 @@ pub struct SpecOpts {
     pub static_pct: u64,
     /// keep first bytes 0x0A–0x0F (8-byte-id markers… none) free: junk bytes for recovery tests
     pub reserve_junk: bool,
+    /// one table in eight is given further unusual but legal shapes (see the end of `gen_spec`); off unless a check asks
+    pub shapes: bool,
 }
 
 impl Default for SpecOpts {
     fn default() -> Self {
-        SpecOpts { globals: true, intermediate_globals: true, global_masters: true, max_elems: 24, max_depth: 5, static_pct: 10, reserve_junk: false }
+        SpecOpts { globals: true, intermediate_globals: true, global_masters: true, max_elems: 24, max_depth: 5, static_pct: 10, reserve_junk: false, shapes: false }
     }
 }
 
@@ -167,6 +169,40 @@ pub fn gen_spec(rng: &mut Rng, o: &SpecOpts) -> SpecTable {
         }
         if rng.chance(1, 8) {
             open.swap_remove(k);
+        }
+    }
+    if o.shapes && rng.chance(1, 8) {
+        // Unusual but legal shapes that the tree-shaped construction above never yields (appended, so that the table up to
+        // here is the one every other run of this seed gets):
+        // (1) a master whose whole declared path is one placeholder - it may sit below any chain its bounds allow, under
+        //     different roots, inside itself, and (lower bound 0) at the root level - with a child or two;
+        let b = *rng.pick(&[(None, None), (Some(0), None), (Some(1), None), (Some(0), Some(2)), (Some(1), Some(3))]);
+        let gm = fresh_id(rng, &mut used);
+        elems.push(ElemDef { id: gm, ty: Ty::Master, path: vec![PathPart::Global(b)] });
+        for _ in 0..rng.range(1, 2) {
+            let id = fresh_id(rng, &mut used);
+            elems.push(ElemDef { id, ty: *rng.pick(&leaf_tys), path: vec![PathPart::Global(b), PathPart::Id(gm)] });
+        }
+        // (2) an element whose place depends on an ancestor *above* such a master: anywhere below one particular root;
+        let roots: Vec<u64> = elems.iter().filter(|e| e.path.is_empty() && e.ty == Ty::Master).map(|e| e.id).collect();
+        if !roots.is_empty() {
+            let r = *rng.pick(&roots);
+            let id = fresh_id(rng, &mut used);
+            elems.push(ElemDef { id, ty: *rng.pick(&leaf_tys), path: vec![PathPart::Id(r), PathPart::Global((Some(1), None))] });
+        }
+        // (3) a child that constrains the ancestors more tightly than its parent's own path does: the parent may sit at
+        //     several depths (`Doc/(0-)/Node`), the child only in a Node directly below Doc (`Doc/Node/Flag`) or at most one
+        //     level further down (`Doc/(0-1)/Node/Flag`).
+        let nodes: Vec<ElemDef> = elems.iter().filter(|e| e.ty == Ty::Master && e.path.len() >= 2 && matches!(e.path.last(), Some(PathPart::Global(_)))).cloned().collect();
+        if !nodes.is_empty() {
+            let m = rng.pick(&nodes).clone();
+            let mut path = m.path[..m.path.len() - 1].to_vec();
+            if rng.chance(1, 2) {
+                path.push(PathPart::Global((Some(0), Some(1))));
+            }
+            path.push(PathPart::Id(m.id));
+            let id = fresh_id(rng, &mut used);
+            elems.push(ElemDef { id, ty: *rng.pick(&leaf_tys), path });
         }
     }
     elems.push(ElemDef { id: CRC_ID, ty: Ty::Bin, path: vec![PathPart::Global((Some(1), None))] });
@@ -466,13 +502,17 @@ pub fn ends_open(n: &Node) -> bool {
 pub fn gen_doc(rng: &mut Rng, spec: &SpecTable, o: &DocOpts) -> Vec<Node> {
     let mut g = DocGen { spec, o, left: rng.range(1, o.max_nodes.max(1)), unk: Vec::new() };
     let roots: Vec<&ElemDef> = spec.elems.iter().filter(|e| e.path.is_empty()).collect();
-    let mut doc = Vec::new();
+    // masters whose whole path is a placeholder with lower bound 0 may also stand at the root level (only tables with the
+    // unusual shapes have any): never first - the document starts at a root element - and not directly after an unknown-size
+    // master, which would take them in as a child
+    let global_roots: Vec<&ElemDef> = spec.elems.iter().filter(|e| e.ty == Ty::Master && !e.path.is_empty() && spec.allowed(e.id, &[])).collect();
+    let mut doc: Vec<Node> = Vec::new();
     let n_roots = rng.range(1, o.max_roots.max(1));
     for _ in 0..n_roots {
         if g.left == 0 {
             break;
         }
-        let e = *rng.pick(&roots);
+        let e = if !global_roots.is_empty() && !doc.is_empty() && !doc.last().map_or(false, ends_open) && rng.chance(1, 3) { *rng.pick(&global_roots) } else { *rng.pick(&roots) };
         g.left -= 1;
         if e.ty == Ty::Master {
             let mut n = Node::master(e.id, vec![]);
